@@ -1,71 +1,80 @@
 /-
   C05 — Batch authorization equals brute-force authorization of every substitution.
 
-  Model: `CedarGo/Model/Batch.lean` (`cloneSub` with its defect, `Value.subst`, `doBatch`, `batchAuthorize`), tied to
+  Model: `CedarGo/Model/Batch.lean` (`cloneSub`, `Value.subst`, `doBatch`, `batchAuthorize`), tied to
   `x/exp/batch/batch.go` by the correspondence ops `clonesub` and `batch` (whole enumeration: staged partial
-  evaluation, substitution, final authorization; the model reproduces the implementation's results INCLUDING the
-  known defects).
+  evaluation, substitution, final authorization).
 
   PROVED here
-    * `C05_cloneSub_counterexample`      — the code's substitution leaves an occurrence of the variable behind
-                                           (context `{a: ?x, b: ?x}`): the full property is false for the code as written.
     * `C05_subst_complete`               — the specification (`Value.subst`) really removes every occurrence.
-    * `C05_cloneSub_is_subst_partial`    — on values in which every record has at most one field bearing the variable
-                                           (`Value.oneBearing`), `cloneSub` IS full substitution and its change flag is
-                                           exactly "the variable occurs".
-    * `C05_cloneSubEnv_is_substEnv_partial` — the same for the four request parts.
+    * `C05_cloneSub_is_subst`            — `cloneSub` IS full substitution on EVERY value and its change flag is
+                                           exactly "the variable occurs" (full strength since the repair of
+                                           `clonesub-second-occurrence`; the former counterexample `{a: ?x, b: ?x}` is a
+                                           regression `example` now); `C05_cloneSub_complete`: no occurrence survives.
+    * `C05_cloneSubEnv_is_substEnv`      — the same for the four request parts.
     * `C05_batch_is_fold_over_product`   — the recursive enumeration is a left-to-right pass over the Cartesian product
                                            (the `trace`), consulting the cancellation oracle before and the callback at
                                            every element, stopping at the first failure.
-    * `C05_batch_calls_eq_product_partial` — no cancellation, callback never fails, every substituted request well-typed:
+    * `C05_batch_calls_eq_product`       — no cancellation, callback never fails, every substituted request well-typed:
                                            the callback is invoked exactly once per element of the product, in order, with
-                                           that substitution (`values`) — and with the request obtained by `cloneSub`;
-                                           together with `C05_cloneSub_is_subst_partial` this is the fully substituted
-                                           request on the `oneBearing` domain.
+                                           that substitution (`values`) and with the FULLY substituted request
+                                           (`C05_batch_requests_fully_substituted`).
     * `C05_batch_stops_at_first_failure` — if the callback fails at its (k+1)-th invocation the run returns that error
                                            after exactly k+1 invocations; if the context is cancelled once k invocations
                                            have been made the run returns `cancelled` after exactly k invocations.
-  NOT PROVED (stated in the doc comment of `C05_batch_decision_eq_direct`): that each result's decision and reason
-  set equal the ordinary authorizer's.  That is C06's soundness applied at every enumeration level; the code violates it
-  outside C06's domain (see `C06_*_counterexample`), and inside it the level-by-level composition is not done here.
-  The direct oracle (harness/cmd/vh/c05.go) decides exactly that statement on the implementation.
+    * `C05_batch_decision_eq_direct_partial` — every result's decision and reasons (list of ids and positions) equal the
+                                           ordinary authorizer's on the fully substituted request, for EVERY policy set
+                                           and template, under the premise that no ignore marker is met at any
+                                           enumeration level (`runDomain`, decidable): C06's soundness — which since the
+                                           repairs of partial.go holds for every policy — composed level by level.
+    * `C05_batch_eq_brute_force_partial`   — all of the above in one statement for a run without callback failure /
+                                           cancellation.
+  NOT PROVED: the premise is expressed through the model's partial evaluator (`runDomain`) rather than on the inputs;
+  the diagnostic's error list is not compared (the property does not ask); ignored parts are left to the direct
+  oracle's weak (widening) check.  The direct oracle (harness/cmd/vh/c05.go) decides the full statement on the
+  implementation.
 -/
 import CedarGo.Model.Batch
 import CedarGoProofs.Lemmas.C05
+import CedarGoProofs.Lemmas.C05Decision
 namespace CedarGo
 
 /-! ## substitution -/
 
-/-- witness: context `{a: ?x, b: ?x}`, `x := 1` -/
+/-- the former witness of `clonesub-second-occurrence`: context `{a: ?x, b: ?x}`, `x := 1` -/
 def c05CeValue : Value := .record [("a", mkVariable "x"), ("b", mkVariable "x")]
 
-/-- `cloneSub` is NOT full substitution: after substituting `x` the value still contains `x`,
-    whereas full substitution leaves none. -/
-theorem C05_cloneSub_counterexample :
-    ∃ (k : String) (v r : Value), v.hasVar k = false ∧
-      ((cloneSub k v r).1).hasVar k = true ∧ (Value.subst k v r).hasVar k = false :=
-  ⟨"x", .long 1, c05CeValue, by decide +kernel, by decide +kernel, by decide +kernel⟩
+/-- regression (was `C05_cloneSub_counterexample` before the repair of `cloneSub`: only the first field was
+    replaced and `b` kept the marker entity): every occurrence is replaced now. -/
+example : (cloneSub "x" (.long 1) c05CeValue).1.beq (.record [("a", .long 1), ("b", .long 1)]) = true ∧
+    (cloneSub "x" (.long 1) c05CeValue).2 = true := by decide +kernel
+example : ((cloneSub "x" (.long 1) c05CeValue).1).hasVar "x" = false := by decide +kernel
+/-- a variable twice in a record nested in a set, and in a nested record -/
+example : (cloneSub "x" (.long 1)
+      (.record [("r", .record [("a", mkVariable "x"), ("b", .set [mkVariable "x"])]),
+                ("rs", .set [.record [("a", mkVariable "x"), ("b", mkVariable "x"), ("c", mkVariable "y")]])])).1.beq
+    (.record [("r", .record [("a", .long 1), ("b", .set [.long 1])]),
+              ("rs", .set [.record [("a", .long 1), ("b", .long 1), ("c", mkVariable "y")]])]) = true := by
+  decide +kernel
 
 /-- the specification side: full substitution by a variable-free value leaves no occurrence of the variable -/
 theorem C05_subst_complete (k : String) (v r : Value) (hv : v.hasVar k = false) :
     (Value.subst k v r).hasVar k = false :=
   subst_complete k v hv r
 
-/-- Full statement (false for the code, see the counterexample): `∀ r, cloneSub k v r = (Value.subst k v r, r.hasVar k)`.
-    Proved on the domain where every record has at most one field bearing the variable. -/
-theorem C05_cloneSub_is_subst_partial (k : String) (v r : Value) (h : r.oneBearing k = true) :
+/-- `cloneSub` IS full substitution, on every value, and its change flag is exactly "the variable occurs". -/
+theorem C05_cloneSub_is_subst (k : String) (v r : Value) :
     cloneSub k v r = (Value.subst k v r, r.hasVar k) :=
-  cloneSub_eq_subst k v r h
+  cloneSub_eq_subst k v r
 
-example : c05CeValue.oneBearing "x" = false := by decide +kernel
-example : (Value.record [("a", mkVariable "x"), ("b", mkVariable "y"), ("c", .set [mkVariable "x"])]).oneBearing "y" = true := by
-  decide +kernel
+/-- hence no occurrence of the variable survives `cloneSub` -/
+theorem C05_cloneSub_complete (k : String) (v r : Value) (hv : v.hasVar k = false) :
+    ((cloneSub k v r).1).hasVar k = false := by
+  rw [cloneSub_eq_subst]; exact subst_complete k v hv r
 
-theorem C05_cloneSubEnv_is_substEnv_partial (k : String) (v : Value) (env : Env)
-    (hp : env.principal.oneBearing k = true) (ha : env.action.oneBearing k = true)
-    (hr : env.resource.oneBearing k = true) (hc : env.context.oneBearing k = true) :
+theorem C05_cloneSubEnv_is_substEnv (k : String) (v : Value) (env : Env) :
     cloneSubEnv k v env = substEnv k v env := by
-  simp [cloneSubEnv, substEnv, cloneSub_eq_subst, hp, ha, hr, hc]
+  simp [cloneSubEnv, substEnv, cloneSub_eq_subst]
 
 /-! ## enumeration -/
 
@@ -77,7 +86,7 @@ theorem C05_batch_is_fold_over_product {ε : Type} (cancelled : Nat → Bool) (c
   doBatch_eq_runTrace cancelled cb vars env ps vals calls hne
 
 /-- exactly once per element of the Cartesian product, in order, with the substitution used -/
-theorem C05_batch_calls_eq_product_partial {ε : Type} (cb : BResult → Except ε Unit)
+theorem C05_batch_calls_eq_product {ε : Type} (cb : BResult → Except ε Unit)
     (vars : List (String × List Value)) (env : Env) (ps : List (PolicyID × Policy))
     (hne : ∀ kv ∈ vars, kv.2 ≠ [])
     (hcb : ∀ r, cb r = .ok ())
@@ -90,6 +99,28 @@ theorem C05_batch_calls_eq_product_partial {ε : Type} (cb : BResult → Except 
   refine ⟨calls, h1, ?_, h2⟩
   rw [values_of_trace _ _ h2 (trace_leaf_values vars env ps []), trace_substs]
   simp
+
+/-- ... and with the FULLY substituted request: for a template without ignored parts (and value lists without ignore
+    markers), the request of the result delivered for the substitution `σs` (in enumeration order) is the template in
+    which every occurrence of every variable of `σs` has been replaced (`substMany` = successive `Value.subst`). -/
+theorem C05_batch_requests_fully_substituted (vars : List (String × List Value)) (env : Env)
+    (ps : List (PolicyID × Policy)) (hi : noIgnoredPart env = true)
+    (hv : ∀ kv ∈ vars, ∀ v ∈ kv.2, v.isIgnore = false) :
+    ∀ o ∈ trace vars env ps [], o.1.map (·.1) = vars.map (·.1) ∧ ∀ r, o.2 = some r →
+      r.principal = substMany o.1 env.principal ∧ r.action = substMany o.1 env.action ∧
+      r.resource = substMany o.1 env.resource ∧ r.context = substMany o.1 env.context := by
+  intro o ho
+  obtain ⟨σs, h1, h2, h3⟩ := trace_leaf_env vars env ps [] hi hv o ho
+  have h1' : o.1 = σs := by simpa using h1
+  subst h1'
+  refine ⟨h2, fun r hr => ?_⟩
+  obtain ⟨a, b, c, d⟩ := h3 r hr
+  obtain ⟨pa, pb, pc, pd⟩ := substManyEnv_parts o.1 env
+  exact ⟨a.trans pa, b.trans pb, c.trans pc, d.trans pd⟩
+
+/-- the variable is gone from the request after its substitution (e.g. the former defect's witness) -/
+example : (substMany [("x", .long 1)] c05CeValue).beq (.record [("a", .long 1), ("b", .long 1)]) = true := by
+  decide +kernel
 
 example : product [("x", [.long 1, .long 2]), ("y", [.bool true])] =
     [[("x", .long 1), ("y", .bool true)], [("x", .long 2), ("y", .bool true)]] := by rfl
@@ -119,10 +150,64 @@ theorem C05_batch_stops_when_cancelled {ε : Type} (cancelled : Nat → Bool) (c
   subst this
   exact ⟨hc, h2, rest.map (·.2), h3⟩
 
-/- `C05_batch_decision_eq_direct` (NOT proved; decided on the implementation by the direct oracle):
-     for every call `r` of a run, `r.allow` and the set of `r.reasons` ids equal
-     `authorize ps (the fully substituted request)`.
-   False for the code as written outside C06's domain: `C06_stale_residual_counterexample`,
-   `C06_tainted_container_counterexample`, `C06_isin_eager_counterexample`. -/
+/-! ## decision and reasons -/
+
+/-- Every result carries the decision and the reasons of the ordinary authorizer on ITS fully substituted request.
+    Full statement: for every policy set, store and template.  Proved here under the premise that no ignore marker is
+    met (`noIgnoredPart`, value lists without ignore markers, and `runDomain` = at no enumeration level does the partial
+    evaluation of a condition report `errIgnore`; decidable) — the property promises equality only for templates with
+    variables; ignored parts only widen (C06).  The proof is C06's policy-level soundness applied at every enumeration
+    level: the final request completes EVERY level's template (`completion_substMany`), and `authorize` only looks at
+    which policies are satisfied.  Reasons are equal as LISTS (ids and positions, in policy order); the errors of the
+    diagnostic are not compared (error-ness is not preserved by partial evaluation, and the property does not ask). -/
+theorem C05_batch_decision_eq_direct_partial (vars : List (String × List Value)) (env : Env)
+    (ps : List (PolicyID × Policy)) (hi : noIgnoredPart env = true)
+    (hv : ∀ kv ∈ vars, ∀ v ∈ kv.2, v.isIgnore = false) (hd : runDomain vars env ps = true) :
+    ∀ o ∈ trace vars env ps [], ∀ r, o.2 = some r →
+      r.allow = (authorize ps (substManyEnv o.1 env)).allow ∧
+      r.reasons = (authorize ps (substManyEnv o.1 env)).reasons := by
+  intro o ho r hr
+  obtain ⟨σs, h1, h2⟩ := trace_decision vars env ps [] hi hv hd o ho
+  have h1' : o.1 = σs := by simpa using h1
+  subst h1'
+  exact h2 r hr
+
+/-- The whole statement for a run whose callback never fails and is never cancelled: exactly once per element of the
+    product, with that substitution, the fully substituted request, and the ordinary authorizer's decision and reasons. -/
+theorem C05_batch_eq_brute_force_partial {ε : Type} (cb : BResult → Except ε Unit)
+    (vars : List (String × List Value)) (env : Env) (ps : List (PolicyID × Policy))
+    (hne : ∀ kv ∈ vars, kv.2 ≠ []) (hcb : ∀ r, cb r = .ok ())
+    (hvalid : ∀ o ∈ trace vars env ps [], o.2.isSome = true)
+    (hi : noIgnoredPart env = true) (hv : ∀ kv ∈ vars, ∀ v ∈ kv.2, v.isIgnore = false)
+    (hd : runDomain vars env ps = true) :
+    ∃ calls, doBatch (fun _ => false) cb vars env ps [] [] = .ok calls ∧
+      calls.map (·.values) = product vars ∧
+      ∀ r ∈ calls,
+        r.principal = substMany r.values env.principal ∧ r.action = substMany r.values env.action ∧
+        r.resource = substMany r.values env.resource ∧ r.context = substMany r.values env.context ∧
+        r.allow = (authorize ps (substManyEnv r.values env)).allow ∧
+        r.reasons = (authorize ps (substManyEnv r.values env)).reasons := by
+  obtain ⟨calls, h1, h2, h3⟩ := C05_batch_calls_eq_product cb vars env ps hne hcb hvalid
+  refine ⟨calls, h1, h2, ?_⟩
+  intro r hr
+  have : some r ∈ (trace vars env ps []).map (·.2) := by rw [← h3]; exact List.mem_map_of_mem hr
+  obtain ⟨o, ho, hor⟩ := List.mem_map.mp this
+  have hval : r.values = o.1 := trace_leaf_values vars env ps [] o ho r hor
+  obtain ⟨_, hreq⟩ := C05_batch_requests_fully_substituted vars env ps hi hv o ho
+  obtain ⟨a, b, c, d⟩ := hreq r hor
+  obtain ⟨e, f⟩ := C05_batch_decision_eq_direct_partial vars env ps hi hv hd o ho r hor
+  rw [hval]
+  exact ⟨a, b, c, d, e, f⟩
+
+/-- non-vacuity: the former stale-residual witness through batch — `context.key && true`, `context = {key: ?k}`,
+    `k ∈ [true, false]` — satisfies the premise, and the run allows exactly for `k = true` -/
+example :
+    let env : Env := { entities := [], principal := .entity "User" "a", action := .entity "Action" "a",
+                       resource := .entity "Doc" "a", context := .record [("key", mkVariable "k")] }
+    let ps : List (PolicyID × Policy) :=
+      [("p0", { effect := .permit, conditions := [(true, .binop .and (.access (.var .context) "key") (.lit (.bool true)))] })]
+    runDomain [("k", [.bool true, .bool false])] env ps = true ∧
+      (trace [("k", [.bool true, .bool false])] env ps []).map (fun o => o.2.map (·.allow)) = [some true, some false] := by
+  decide +kernel
 
 end CedarGo
